@@ -105,7 +105,7 @@ type Vaxis struct {
 	chSigWinSz       chan os.Signal
 	chSigKill        chan os.Signal
 	chCursorPos      chan [2]int
-	chQuit           chan bool
+	chQuit           chan struct{}
 	winSize          Resize
 	nextSize         Resize
 	chSizeDone       chan bool
@@ -221,7 +221,7 @@ func New(opts Options) (*Vaxis, error) {
 	vx.chSigWinSz = make(chan os.Signal, 1)
 	vx.chSigKill = make(chan os.Signal, 1)
 	vx.chCursorPos = make(chan [2]int, 1)
-	vx.chQuit = make(chan bool)
+	vx.chQuit = make(chan struct{})
 	vx.chSizeDone = make(chan bool, 1)
 	vx.charCache = make(map[string]int, 256)
 	vx.chFg = make(chan string, 1)
@@ -460,6 +460,13 @@ func (vx *Vaxis) close() {
 		log.Info("Time/render: %s", vx.elapsed/time.Duration(vx.renders))
 	}
 	log.Info("Cached characters: %d", len(vx.charCache))
+}
+
+// Done returns a channel that is closed once Close has restored the terminal.
+// Goroutines working for a Vaxis (widgets which animate, pollers) select on
+// it to end with it
+func (vx *Vaxis) Done() <-chan struct{} {
+	return vx.chQuit
 }
 
 // Resize manually triggers a resize event. Normally, vaxis listens to SIGWINCH
